@@ -120,6 +120,7 @@ type c09 struct {
 	heldReq [2][][]byte
 	mode    string
 	stats   map[string]int
+	relDone chan struct{}
 }
 
 func (x *c09) count(k string) { x.mu.Lock(); x.stats[k]++; x.mu.Unlock() }
@@ -336,14 +337,29 @@ func isolationRun(r *vh.Runner, c *vh.Case, i int) {
 		x.r.Count("tubes_opened_and_matched", int64(len(insts)))
 
 		// traffic on every instance, with per-instance monitors
+		// unreliable instances stay open until the reliable ones of the
+		// generation are through (their retransmissions and the extra
+		// acknowledgements these provoke are traffic that could go astray)
+		relDone := make(chan struct{})
+		var rw sync.WaitGroup
+		x.mu.Lock()
+		x.relDone = relDone
+		x.mu.Unlock()
 		var tw sync.WaitGroup
 		for _, inst := range insts {
 			tw.Add(1)
+			if inst.reliable {
+				rw.Add(1)
+			}
 			go func(inst *instance) {
 				defer tw.Done()
+				if inst.reliable {
+					defer rw.Done()
+				}
 				x.traffic(inst)
 			}(inst)
 		}
+		go func() { rw.Wait(); close(relDone) }()
 		if releaseStaleDuring {
 			// frames of the previous generation arrive while the successors carry data
 			time.Sleep(time.Duration(rng.Intn(40)) * time.Millisecond)
@@ -541,6 +557,28 @@ func (x *c09) traffic(inst *instance) {
 		got++
 		x.r.Count("unreliable_messages_checked", 1)
 	}
+	x.mu.Lock()
+	relDone := x.relDone
+	x.mu.Unlock()
+	if relDone != nil {
+		select {
+		case <-relDone:
+			time.Sleep(20 * time.Millisecond)
+		case <-time.After(9 * time.Minute):
+		}
+	}
+	// nobody writes towards the creator's end: whatever can be read there came
+	// from somewhere else
+	for {
+		cr.SetReadDeadline(time.Now().Add(time.Millisecond))
+		n, err := cr.ReadMsg(buf)
+		if err != nil {
+			break
+		}
+		c.Violate("C09:unreliable-delivers:message-on-the-end-nobody-writes-to:"+x.mode, map[string]any{"uid": inst.uid, "id": inst.id, "generation": inst.gen, "len": n, "head": vh.HexCap(buf[:n], 16), "stale_mode": x.mode})
+		return
+	}
+	cr.SetReadDeadline(time.Time{})
 	// the creator closes; the acceptor must see nothing but the written
 	// messages (lost ones may be missing) and then end-of-stream or silence
 	cr.Close()
